@@ -195,3 +195,34 @@ pub fn single_push(data: &[u8]) -> Vec<u8> {
     push_bytes(&mut v, data);
     v
 }
+
+impl MTree {
+    pub fn map_keys(&self, f: &mut dyn FnMut(&str) -> String) -> MTree {
+        match self {
+            MTree::Leaf(n) => MTree::Leaf(n.map_keys(f)),
+            MTree::Branch(a, b) => {
+                let a2 = a.map_keys(f);
+                MTree::Branch(Box::new(a2), Box::new(b.map_keys(f)))
+            }
+        }
+    }
+}
+
+impl MDesc {
+    /// Apply `f` to every key, in order of appearance in the text form.
+    pub fn map_keys(&self, f: &mut dyn FnMut(&str) -> String) -> MDesc {
+        match self {
+            MDesc::Bare(n) => MDesc::Bare(n.map_keys(f)),
+            MDesc::Pkh(k) => MDesc::Pkh(f(k)),
+            MDesc::Wpkh(k) => MDesc::Wpkh(f(k)),
+            MDesc::ShWpkh(k) => MDesc::ShWpkh(f(k)),
+            MDesc::Sh(n) => MDesc::Sh(n.map_keys(f)),
+            MDesc::Wsh(n) => MDesc::Wsh(n.map_keys(f)),
+            MDesc::ShWsh(n) => MDesc::ShWsh(n.map_keys(f)),
+            MDesc::Tr(k, t) => {
+                let k2 = f(k);
+                MDesc::Tr(k2, t.as_ref().map(|t| t.map_keys(f)))
+            }
+        }
+    }
+}
